@@ -435,6 +435,15 @@ theorem offreader_response_survives_full_queue (queueFull : Bool) (resp : Messag
     offReaderHandoff Gen.serveFacts queueFull resp = some resp := by
   rw [serve_facts]; cases queueFull <;> rfl
 
+/-- A request refused at the saturated off-reader cap is answered exactly once and its handler does not run. -/
+theorem saturated_request_one_response_no_invocation : saturatedOutcome Gen.serveFacts = (1, 0) := by
+  rw [serve_facts]; rfl
+
+/-- A struct mount's handler is given exactly the pointer's segments, whatever their number (the 16/17 spill
+boundary included): an unknown deep path cannot be served as its 16-segment prefix. -/
+theorem struct_segments_all_delivered (segs : List String) : structSegmentsSeen Gen.serveFacts segs = segs := by
+  rw [serve_facts]; simp [structSegmentsSeen, specServe]
+
 /-- A dispatched notify is run exactly once on every path — also off the reader, whatever happens to the connection
 in the meantime — and answered on none. -/
 theorem notify_invoked_once_unanswered (hr : route Gen.codes req utf8 found = .dispatch) (hn : req.isNotify = true) :
